@@ -37,6 +37,7 @@ import (
 type c07StartP struct {
 	base    c07Params
 	nClosed int // at most this many closed-channel summaries
+	minClosed int // and at least this many
 	nRes    int // at most this many stored resolution messages
 	nOpenCh int // at most this many open channels
 	// failUpTo: write failures are injected only when the store holds at most
@@ -109,7 +110,7 @@ func c07Clean(p c07StartP) {
 	n := len(w.circ)
 
 	// ---- closed channels as reported by the channel DB ----
-	nc := vChoice("nclosed", p.nClosed+1)
+	nc := p.minClosed + vChoice("nclosed", p.nClosed-p.minClosed+1)
 	scid := make([]uint64, nc)
 	pend := make([]bool, nc)
 	sums := make([]*chanstate.ChannelCloseSummary, nc)
@@ -211,15 +212,18 @@ func c07Clean(p c07StartP) {
 	cmi, err := NewCircuitMap(cfg)
 
 	// ---- which step ended the start-up ----
+	// (how many transactions the start-up uses is lnd's business: only the
+	// first one - bucket initialisation - is identified, any later failing one
+	// is either the purge or the restore)
 	vAssert(w.db.txs >= 1, "clean: the buckets are initialised first")
 	if w.db.fails[0] {
-		vAssert(err != nil && cmi == nil && w.db.txs == 1 && fetchCalls == 0, "clean: a failed bucket initialisation aborts the start")
+		vAssert(err != nil && cmi == nil && fetchCalls == 0, "clean: a failed bucket initialisation aborts the start")
 		vAssert(w.storeUnchanged(snap), "clean: an aborted start leaves the store unchanged")
 		return
 	}
 	vAssert(fetchCalls == 1 && !sawPendingOnly, "clean: the closed channels are read once, fully closed ones included")
 	if fetchErr {
-		vAssert(err == errFetch && cmi == nil && w.db.txs == 1, "clean: a failed channel DB read aborts the start")
+		vAssert(err == errFetch && cmi == nil, "clean: a failed channel DB read aborts the start")
 		vAssert(w.storeUnchanged(snap), "clean: an aborted start leaves the store unchanged")
 		vReach("fetch-closed-failed")
 		return
@@ -231,29 +235,24 @@ func c07Clean(p c07StartP) {
 		}
 		vAssert(ok, "clean: the resolution store is consulted with the OUTGOING key of a recorded keystone")
 	}
-	tx := 1
-	if anyClosed {
-		vAssert(w.db.txs >= 2, "clean: a purge transaction runs when some channel is fully closed")
-		if w.db.fails[1] {
-			vAssert(err != nil && cmi == nil && w.db.txs == 2, "clean: a failed purge aborts the start")
-			vAssert(w.storeUnchanged(snap), "clean: a failed purge leaves the store unchanged")
-			vReach("clean-write-failed")
-			return
-		}
-		tx = 2
-	} else {
-		vReach("no-closed-channel")
+	failed := false
+	for _, f := range w.db.fails {
+		failed = failed || f
 	}
-	vAssert(w.db.txs == tx+1, "clean: the purge is followed by exactly the restore transaction (nothing to trim)")
-	failed := w.db.fails[tx]
 	vAssert((err != nil) == failed && (cmi == nil) == failed, "clean: error iff a transaction failed")
-
 	if failed {
-		// the restore transaction writes nothing here (no stray keystones): the
-		// store is the one the sibling path (same purge, restore succeeded) is
-		// checked against below
-		vAssert(len(w.adds().kvs) == nKeep && len(w.kss().kvs) == nKeepOpen, "clean: the buckets hold exactly the kept circuits and keystones")
+		// purge or restore failed. The purge is all or nothing; the restore
+		// writes nothing here (no stray keystones).
+		if w.storeUnchanged(snap) {
+			vReach("start-failed-store-unchanged")
+		} else {
+			vAssert(len(w.adds().kvs) == nKeep && len(w.kss().kvs) == nKeepOpen, "clean: after an aborted start the store is either unchanged or holds exactly the kept circuits and keystones")
+			vReach("start-failed-after-purge")
+		}
 		return
+	}
+	if !anyClosed {
+		vReach("no-closed-channel")
 	}
 
 	// ---- the store after the purge ----
@@ -584,16 +583,28 @@ func c07TrimAll(p c07StartP) {
 // entries
 // ---------------------------------------------------------------------------
 
+// quick tier: <= 2 circuits with <= 1 closed channel, and <= 1 circuit with
+// exactly 2 closed channels; <= 1 stored resolution message
 func VerifC07Clean() {
-	c07Clean(c07StartP{base: c07Quick(), nClosed: 2, nRes: 1, failUpTo: 1})
+	c07Clean(c07StartP{base: c07Quick(), nClosed: 1, nRes: 1, failUpTo: 1})
+}
+func VerifC07CleanTwo() {
+	b := c07Quick()
+	b.nPre = 1
+	c07Clean(c07StartP{base: b, minClosed: 2, nClosed: 2, nRes: 1, failUpTo: 1})
 }
 func VerifC07TrimAll() {
 	c07TrimAll(c07StartP{base: c07Quick(), nOpenCh: 2})
 }
 
-// thorough tier: three circuits, equal payment hashes, both failure points
+// thorough tier: <= 2 circuits, <= 2 closed channels, <= 2 stored messages,
+// both failure points, equal payment hashes; and 3 circuits with <= 2 closed
+// channels and <= 1 stored message
 func VerifC07CleanDeep() {
-	c07Clean(c07StartP{base: c07Deep(), nClosed: 2, nRes: 2, failUpTo: 2})
+	c07Clean(c07StartP{base: c07Wide(), nClosed: 2, nRes: 2, failUpTo: 2})
+}
+func VerifC07CleanWide() {
+	c07Clean(c07StartP{base: c07Deep(), nClosed: 2, nRes: 1, failUpTo: 1})
 }
 func VerifC07TrimAllDeep() {
 	c07TrimAll(c07StartP{base: c07Deep(), nOpenCh: 2})
